@@ -3,6 +3,7 @@ from __future__ import annotations
 
 import ast
 
+from ..absint import EMPTY_ENV
 from ..model import AnalysisError, ClassInfo, Program
 from ..report import Check
 from ..util import const_value, short
@@ -33,7 +34,15 @@ def run(ck: Check, prog: Program) -> None:
             ck.functions.add(f.qualname)
         facts, problems = errmap_facts(prog, interp, r)
         mfacts, mproblems = method_call_facts(prog, interp, r)
-        problems = problems + [p for p in mproblems if p[0] in ('BIND-BEFORE-RUN',)]
+        problems = problems + [p for p in mproblems if p[0] in ('BIND-BEFORE-RUN', 'ERRMAP')]
+        # every failure of the parse stage is answered (-32700 / -32600): no Exception class may leave dispatch unmapped
+        resd = interp.analyze(r.dispatch, {EMPTY_ENV}, recv=r.cls.qualname)
+        for (c_, o_), w_ in resd.raises.items():
+            if c01.is_exception_class(prog, c_):
+                inner = w_.innermost()
+                problems.append(('ERRMAP', f'{c_} is not mapped to an error response', w_.line,
+                                 f'{c_} raised at {inner.rel}:{inner.line} is caught by no handler of {short(r.dispatch.qualname)}: the failure is not '
+                                 f'reported as a JSON-RPC error (-32700 for text the loader rejects, -32600 for an invalid request) but raised to the server'))
         for rule in ('ERRMAP', 'VERBATIM', 'NOLEAK-EXC', 'BIND-BEFORE-RUN'):
             bad = [p for p in problems if p[0] == rule]
             ck.ob(rule, f'{half}: {rule}', not bad, sample={'table': facts} if rule == 'ERRMAP' else None)
